@@ -11,7 +11,7 @@ from pyubx2 import UBXMessage, UBXReader
 from pyubx2 import exceptions as ube
 from pyubx2 import ubxhelpers as uh
 
-assert pyubx2.__file__.startswith("/repo/src/"), pyubx2.__file__
+assert pyubx2.__file__.startswith(os.environ.get("VERIF_REPO", "/repo") + "/src/"), pyubx2.__file__
 
 EXN_NAMES = {
     "UBXParseError": "UBXParseError", "UBXMessageError": "UBXMessageError",
